@@ -408,7 +408,7 @@ pub fn run(args: &Args) -> i32 {
             let ds = match write_table(&unique_uri("c19"), &frags, version, None, None, stable).await {
                 Ok(d) => d,
                 Err(e) => {
-                    report.harness_error(&format!("case {case}: write: {e}"));
+                    op_failed(&report, &format!("case {case}: write: {e}"));
                     return;
                 }
             };
@@ -482,7 +482,7 @@ pub fn run(args: &Args) -> i32 {
                         // a failing maintenance operation on a valid table is not this property's
                         // subject, but it must not pass silently
                         report.count("history_op_failed", 1);
-                        report.harness_error(&format!("case {case}: history op failed: {e}; table {table_desc}; history {:?}", t.history));
+                        op_failed(&report, &format!("case {case}: history op failed: {e}; table {table_desc}; history {:?}", t.history));
                         return;
                     }
                 }
@@ -492,7 +492,7 @@ pub fn run(args: &Args) -> i32 {
                 let df = match DfRef::new(m.to_batch()) {
                     Ok(d) => d,
                     Err(e) => {
-                        report.harness_error(&format!("case {case}: datafusion reference: {e}"));
+                        op_failed(&report, &format!("case {case}: datafusion reference: {e}"));
                         return;
                     }
                 };
@@ -549,7 +549,7 @@ pub fn run(args: &Args) -> i32 {
                             ids
                         }
                         RefOutcome::HarnessError(e) => {
-                            report.harness_error(&format!("case {case} state {state} p{pi}: {e}; table {table_desc}"));
+                            op_failed(&report, &format!("case {case} state {state} p{pi}: {e}; table {table_desc}"));
                             continue;
                         }
                     };
